@@ -19,6 +19,7 @@ import (
 	"math/rand"
 	"os"
 	"sort"
+	"strconv"
 	"strings"
 	"sync"
 	"testing"
@@ -30,6 +31,8 @@ import (
 	"github.com/grafana/dskit/concurrency"
 	"github.com/grafana/dskit/httpgrpc"
 	"github.com/grafana/dskit/ring"
+	grpccodes "google.golang.org/grpc/codes"
+	grpcstatus "google.golang.org/grpc/status"
 )
 
 type cfgT struct {
@@ -63,6 +66,8 @@ type behaviour struct {
 	Steps  []stepT `json:"steps"`
 	Calls  [][]int `json:"calls"`
 	Spawns int     `json:"spawns"`
+	// concrete status codes per outcome class, from the specification's table (DoBatch wrapper)
+	Codes map[string][]int `json:"codes"`
 }
 
 // variant: what the property leaves to the caller and the specification does not depend on.
@@ -70,7 +75,8 @@ type variant struct {
 	Spawner    string `json:"spawner"`    // "default" | "recording" | "pool"
 	Classifier string `json:"classifier"` // "custom" | "default4xx"
 	Rot        int    `json:"rot"`        // rotation of the instance order inside a replication set
-	Ring       string `json:"ring"`       // "stub" | "real" (a real ring.Ring whose lookups give the case's replication sets)
+	Ring       string `json:"ring"`       // "stub" | "real" (a real ring.Ring whose lookups give the case's replication sets) | "partitions"
+	API        string `json:"api"`        // "DoBatchWithOptions" | "DoBatch" (deprecated wrapper: default spawner, isHTTPStatus4xx)
 }
 
 type repErr struct {
@@ -141,8 +147,61 @@ func (r *stubRing) InstancesCount() int {
 // (every key has the same number rf of replicas, they are rf neighbours on a circle of the used instances, the
 // tolerance is rf - (rf/2+1)) have one.
 type realRing struct {
-	r    *ring.Ring
+	r    ring.DoBatchRing
 	keys []uint32
+}
+
+// partRingFor: ring.ActivePartitionBatchRing over a real PartitionRing as the DoBatchRing, for the cases it can
+// produce: every key has exactly one replica (= the active partition it is routed to) and no tolerance; "no
+// instances" is a partition ring without active partitions.  Besides the active partitions 1..n (one per replica of
+// the case) the ring has an INACTIVE partition whose tokens sit right below every active token, and every key is
+// chosen so that its token successor belongs to the inactive partition: the lookup has to route it on to the next
+// active partition (C15's routing), which must be the replica the case names.
+func partRingFor(cfg *cfgT, ni int) (*realRing, error) {
+	if cfg.GetErrAt != 0 {
+		return nil, nil
+	}
+	for k := range cfg.Reps {
+		if len(cfg.Reps[k]) != 1 || cfg.MaxErr[k] != 0 {
+			return nil, nil
+		}
+	}
+	desc := ring.NewPartitionRingDesc()
+	now := time.Now()
+	const inactive = int32(99)
+	var inactiveTokens []uint32
+	for i := 1; i <= ni; i++ {
+		tok := uint32(i) * 100000
+		inactiveTokens = append(inactiveTokens, tok-50000)
+		if cfg.NoInst {
+			continue
+		}
+		desc.AddPartition(int32(i), ring.PartitionActive, now)
+		p := desc.Partitions[int32(i)]
+		p.Tokens = []uint32{tok}
+		desc.Partitions[int32(i)] = p
+	}
+	desc.AddPartition(inactive, ring.PartitionInactive, now)
+	p := desc.Partitions[inactive]
+	p.Tokens = inactiveTokens
+	desc.Partitions[inactive] = p
+	pr, err := ring.NewPartitionRing(*desc)
+	if err != nil {
+		return nil, err
+	}
+	rr := &realRing{r: ring.NewActivePartitionBatchRing(pr), keys: make([]uint32, cfg.NK)}
+	for k := range cfg.Reps {
+		i := cfg.Reps[k][0]
+		rr.keys[k] = uint32(i)*100000 - 70000 - uint32(k)
+		if cfg.NoInst {
+			continue
+		}
+		// the routing itself is C15's business: use the ring only if it answers what the case says
+		if got, err := pr.ActivePartitionForKey(rr.keys[k]); err != nil || int(got) != i {
+			return nil, nil
+		}
+	}
+	return rr, nil
 }
 
 // countingRing ends the caller's context inside the j-th lookup (what stubRing does itself).
@@ -288,6 +347,7 @@ type env struct {
 	yGate   []chan struct{}
 	pool    *concurrency.ReusableGoroutinesPool
 	real    *realRing
+	codes   map[string][]int
 }
 
 var curEnv *env // the env whose goroutines may call ring.VerifYield (one case at a time)
@@ -314,6 +374,16 @@ func (e *env) makeErr(c int, o string) error {
 	switch {
 	case o == "ok":
 		return nil
+	case e.v.API == "DoBatch" && len(e.codes[o]) > 0:
+		// a concrete status code the specification's table puts into this class
+		code := e.codes[o][(c+e.v.Rot)%len(e.codes[o])]
+		switch {
+		case code == 0:
+			return fmt.Errorf("replica %d: error without a gRPC status (%s)", c, o)
+		case code < 100:
+			return grpcstatus.Error(grpccodes.Code(code), fmt.Sprintf("replica %d: %s", c, o))
+		}
+		return httpgrpc.Errorf(code, "replica %d: %s", c, o)
 	case e.v.Classifier == "default4xx" && o == "cerr":
 		return httpgrpc.Errorf(400+c, "replica %d rejects", c)
 	case e.v.Classifier == "default4xx":
@@ -325,7 +395,9 @@ func (e *env) makeErr(c int, o string) error {
 
 func (e *env) callback(d ring.InstanceDesc, idx []int) error {
 	c := 0
-	fmt.Sscanf(d.Addr, "addr-i-%d", &c)
+	if n, _ := fmt.Sscanf(d.Addr, "addr-i-%d", &c); n != 1 {
+		c, _ = strconv.Atoi(d.Addr) // ActivePartitionBatchRing: the address is the partition id
+	}
 	e.mu.Lock()
 	if c < 1 || c > e.ni {
 		e.mu.Unlock()
@@ -387,7 +459,12 @@ func (e *env) start(pre bool, cancelInGet int) {
 				e.mu.Unlock()
 			}
 		}()
-		err := ring.DoBatchWithOptions(e.ctx, ring.Write, theRing, keys, e.callback, opts)
+		var err error
+		if e.v.API == "DoBatch" {
+			err = ring.DoBatch(e.ctx, ring.Write, theRing, keys, e.callback, opts.Cleanup)
+		} else {
+			err = ring.DoBatchWithOptions(e.ctx, ring.Write, theRing, keys, e.callback, opts)
+		}
 		e.mu.Lock()
 		e.nret++
 		e.retErr = err
@@ -590,6 +667,7 @@ func runBehaviour(t *testing.T, b *behaviour, v variant, real *realRing) (mm *ab
 	ni := len(b.Calls)
 	e := newEnv(&b.Cfg, ni, b.Grain == "hook", v)
 	e.real = real
+	e.codes = b.Codes
 	fail := func(sig string, got, want any, note string) {
 		if mm == nil {
 			mm = &abs.Mismatch{Sig: sig, Case: map[string]any{"behaviour": b, "variant": v}, Got: got, Want: want, Note: note}
@@ -673,6 +751,7 @@ func variantFor(n int, seed int64, k int) variant {
 		Classifier: []string{"custom", "default4xx"}[r.Intn(2)],
 		Rot:        r.Intn(3),
 		Ring:       "stub",
+		API:        "DoBatchWithOptions",
 	}
 }
 
@@ -702,6 +781,8 @@ func TestReplay(t *testing.T) {
 	nvar := abs.EnvInt("VERIF_VARIANTS", 1)
 	corrupt := abs.EnvInt("VERIF_CORRUPT", 0) // self-test: falsify one expected observation
 	steps, eligible, realRuns := 0, 0, 0
+	wrapRuns, partEligible, partRuns := 0, 0, 0
+	wrapEvery := abs.EnvInt("VERIF_WRAP_EVERY", 5)
 	byGrain := map[string]int{}
 	realEvery := abs.EnvInt("VERIF_REAL_EVERY", 4)
 	defer func() {
@@ -734,6 +815,37 @@ func TestReplay(t *testing.T) {
 				if mm := runBehaviour(t, &b, v, nil); mm != nil {
 					res.Mismatch(*mm)
 					failed = true
+				}
+			}
+			// the same behaviour through the deprecated wrapper DoBatch (every wrapEvery-th behaviour)
+			if !failed && wrapEvery > 0 && len(b.Codes) > 0 && (res.Cases+int(abs.Seed()))%wrapEvery == 0 {
+				v := variantFor(res.Cases, abs.Seed(), 98)
+				v.API, v.Spawner, v.Classifier = "DoBatch", "default", "default4xx"
+				wrapRuns++
+				if mm := runBehaviour(t, &b, v, nil); mm != nil {
+					mm.Sig = "DoBatch-wrapper " + mm.Sig
+					res.Mismatch(*mm)
+					failed = true
+				}
+			}
+			// ... and with ring.ActivePartitionBatchRing over a real PartitionRing as the DoBatchRing, where it can produce the case
+			if !failed && realEvery > 0 {
+				pr, err := partRingFor(&b.Cfg, len(b.Calls))
+				if err != nil {
+					return err
+				}
+				if pr != nil {
+					partEligible++
+					if (partEligible+int(abs.Seed()))%realEvery == 0 {
+						v := variantFor(res.Cases, abs.Seed(), 97)
+						v.Ring = "partitions"
+						partRuns++
+						if mm := runBehaviour(t, &b, v, pr); mm != nil {
+							mm.Sig = "partition-ring " + mm.Sig
+							res.Mismatch(*mm)
+							failed = true
+						}
+					}
 				}
 			}
 			// the same behaviour on a real ring.Ring, where one exists for the case (every realEvery-th eligible behaviour)
@@ -769,6 +881,9 @@ func TestReplay(t *testing.T) {
 	res.AddExtra("replayed_steps", steps)
 	res.AddExtra("real_ring_eligible", eligible)
 	res.AddExtra("real_ring_runs", realRuns)
+	res.AddExtra("dobatch_wrapper_runs", wrapRuns)
+	res.AddExtra("partition_ring_eligible", partEligible)
+	res.AddExtra("partition_ring_runs", partRuns)
 	res.Write(t)
 }
 
